@@ -192,3 +192,34 @@ func C11Scenarios(tier string) []*Scenario {
 	}
 	return out
 }
+
+// defaultWithExtendScenarios: a method with goverter:default FUNC whose struct pair S -> T also has an extend function:
+// the extend function is used wherever S -> T occurs, also in the update position behind the constructor (S -> *T, and
+// *S -> *T / *S -> T with default:update), where its result replaces the constructor's value.
+func defaultWithExtendScenarios(start int, prop string) []*Scenario {
+	var out []*Scenario
+	n := start
+	for _, sp := range []bool{false, true} {
+		for _, tp := range []bool{false, true} {
+			for _, du := range []string{"", "method", "converter"} {
+				for _, df := range []defFunc{c11Funcs[0], c11Funcs[1], c11Funcs[2]} {
+					n++
+					id := fmt.Sprintf("%05d", n)
+					sc := buildC11(id, sp, tp, df, du, false, false)
+					sc.PropGen, sc.PropVal = prop, prop
+					sc.Desc["class"] = "default+extend-for-the-struct-pair " + sc.Desc["class"].(string)
+					sd, td := sc.Decls[0], sc.Decls[1]
+					sT, tT := space.N(sd), space.N(td)
+					fn := "Ext" + id
+					sc.ConvLines = append(sc.ConvLines, "extend "+fn)
+					sc.FuncsSrc += fmt.Sprintf("func %s(s %s) %s { return %s{A: s.A + 1000, B: \"ext\" + s.B, Keep: \"extkeep\"} }\n", fn, sT.Go("conv"), tT.Go("conv"), tT.Go("conv"))
+					sc.Conv.Extends = append(sc.Conv.Extends, &model.Custom{Name: fn, Src: sT, Dst: tT, ArgsFmt: []string{"src"}})
+					sc.Funcs[fn] = "conv." + fn
+					sc.Mode = "value"
+					out = append(out, sc)
+				}
+			}
+		}
+	}
+	return out
+}
